@@ -1,7 +1,7 @@
 (** Entry points of the executable model used by the correspondence driver (ocaml/modeldrv.ml).
     Every entry point maps a list of byte strings (the case's arguments) to one line of text. *)
 From Coq Require Import List NArith ZArith Bool String.
-From BL Require Import Base.Bytes Reader.Entry Reader.SegMap Reader.EventStream Reader.Filter Render.Pretty Render.Time.
+From BL Require Import Base.Bytes Reader.Entry Reader.SegMap Reader.EventStream Reader.Filter Render.Pretty Render.Time Queue.QueueModel.
 Import ListNotations.
 Local Open Scope N_scope.
 
@@ -123,3 +123,19 @@ Definition api (mode : bytes) (args : list bytes) : bytes :=
     api_segmap (map le_dec (match payloads_of (nth_arg args 0) with Some l => l | None => [] end))
                (map le_dec (match payloads_of (nth_arg args 1) with Some l => l | None => [] end))
   else str "unknown-mode".
+
+(** * the queue: one token per operation: <output>/<w>,<r>,<dataEnd>,<writePos>,<writeEnd> *)
+Definition qstate_text (s : qstate) : bytes :=
+  join (str ",") [decZ (sv (w_new s)); decZ (sv (r_new s)); decZ (dataEnd s); decZ (wpos s); decZ (wend s)].
+Definition qout_text (o : qout) : bytes :=
+  match o with
+  | OutGrant true => str "g1" | OutGrant false => str "g0"
+  | OutBatch p1 p2 => str "B" ++ hex p1 ++ str "," ++ hex p2
+  | OutNone => str "-"
+  end.
+Fixpoint api_queue_loop (s : qstate) (ops : list qop) : list bytes :=
+  match ops with
+  | [] => []
+  | o :: r => let (s', out) := qstep s o in (qout_text out ++ str "/" ++ qstate_text s') :: api_queue_loop s' r
+  end.
+Definition api_queue (c : Z) (ops : list qop) : bytes := join sp (api_queue_loop (init c) ops).
